@@ -186,7 +186,11 @@ def r07_2(ctx, rr):
         # value: match side { 0 => data[e1]^data[e2], 1 => data[e0]^data[e2], 2 => data[e0]^data[e1] } ^ val
         arms = []
         for n in walk(a.body):
-            if n.get("k") == "Match" and n.get("src") == "Normal" and show(F, n["e"]) == "side":
+            # the match on the side: its scrutinee is the local that indexes local_edge(..) in the store
+            side_ids = [y["i"]["id"] for x in walk(a.body) if x.get("k") == "MethodCall" and x["name"] == "set_unchecked" and x["args"]
+                        for y in [x["args"][0]] if y.get("k") == "Index" and y["i"].get("k") == "Path" and y["i"].get("res") == "local"]
+            side_id = side_ids[0] if len(side_ids) == 1 else None
+            if n.get("k") == "Match" and n.get("src") == "Normal" and n["e"].get("k") == "Path" and n["e"].get("res") == "local" and (n["e"].get("id") == side_id if side_id is not None else all(a["pat"].get("k") in ("PLit", "PWild") for a in n["arms"])):
                 for arm in n["arms"]:
                     if arm["pat"].get("k") == "PLit":
                         cellsx = [int(x["i"]["v"]) for x in walk(arm["body"]) if x.get("k") == "Index" and x["i"].get("k") == "Lit"]
@@ -301,7 +305,18 @@ def r17_2(ctx, rr):
     # Ok(func) only from try_seed's Ok
     rr.instances += 1
     oks = [x for x in walk(b.body) if x.get("k") == "Ret" and "e" in x and show(F, x["e"]).startswith("v1::Ok(")]
-    rr.check(len(oks) == 1 and show(F, oks[0]["e"]) == "v1::Ok(func)", "build_loop:ok-only-from-try_seed", "build_loop must return Ok only with the function returned by try_seed", b.span)
+    # the value returned is the binding of the `Ok(x)` arm of the match on try_seed's result
+    ok_bind = set()
+    for mm in walk(b.body):
+        if mm.get("k") == "Match" and any(x.get("k") == "MethodCall" and x["name"] == "try_seed" for x in walk(mm["e"])):
+            for a in mm["arms"]:
+                if a["pat"].get("name") == "Ok":
+                    ok_bind |= set(bid for _, bid in pat_bindings(a["pat"]))
+    good = False
+    if len(oks) == 1 and oks[0]["e"].get("k") == "Call" and len(oks[0]["e"].get("args", [])) == 1:
+        arg = oks[0]["e"]["args"][0]
+        good = arg.get("k") == "Path" and arg.get("res") == "local" and arg.get("id") in ok_bind
+    rr.check(good, "build_loop:ok-only-from-try_seed", "build_loop must return Ok only with the function returned by try_seed", b.span)
 
 
 @rule("R17.3", props=["C17", "C20", "C07", "C08"], floor=2, title="both lenders are rewound on every path from a failed attempt to the next one")
@@ -318,12 +333,26 @@ def r17_3(ctx, rr):
         for x in walk(st):
             if x.get("k") == "MethodCall" and cname(F, x) == "RewindableIoLender::rewind" and x["recv"].get("k") == "Path":
                 if st.get("k") == "Assign" and st["l"].get("k") == "Path" and st["l"].get("id") == x["recv"].get("id"):
-                    rew[x["recv"]["name"]] = i
+                    rew[x["recv"]["id"]] = i
     conts = [x for x in walk(body) if x.get("k") == "Continue"]
-    lenders = [p["name"] for p in b.params if p.get("k") == "PBind" and p["name"] in ("keys", "values")]
-    for nm in ("keys", "values"):
+    # the lenders: the parameters of build_loop handed to try_seed by `&mut` (by position: keys first, then values)
+    pids = [p["id"] for p in b.params if p.get("k") == "PBind"]
+    lend = []
+    for x in walk(body):
+        if cname(F, x) == "VBuilder::try_seed":
+            for a in call_args(x):
+                if a.get("k") in ("AddrOf", "Ref", "Borrow") or a.get("mut") is not None:
+                    for y in walk(a):
+                        if y.get("k") == "Path" and y.get("res") == "local" and y.get("id") in pids and y["id"] not in lend:
+                            lend.append(y["id"])
+    lend.sort(key=pids.index)
+    if len(lend) != 2:
+        raise AnchorMissing("build_loop: expected two lender parameters passed to try_seed, found %d" % len(lend))
+    pname = {p["id"]: p["name"] for p in b.params if p.get("k") == "PBind"}
+    for role, lid in zip(("keys", "values"), lend):
         rr.instances += 1
-        rr.check(nm in rew, "build_loop:rewind-%s" % nm, "build_loop must rewind `%s` (`%s = %s.rewind()?`) as an unconditional statement of the retry loop, after the attempt" % (nm, nm, nm), F.loc(loops[0]))
+        nm = pname[lid]
+        rr.check(lid in rew, "build_loop:rewind-%s" % role, "build_loop must rewind `%s` (`%s = %s.rewind()?`) as an unconditional statement of the retry loop, after the attempt" % (nm, nm, nm), F.loc(loops[0]))
     rr.instances += 1
     rr.check(not conts, "build_loop:no-continue", "a `continue` in the retry loop skips the rewinds: the next attempt would see exhausted lenders and build a function over fewer keys", F.loc(conts[0]) if conts else b.span)
     # the attempt (try_seed) precedes the rewinds in the loop body
@@ -514,13 +543,22 @@ def r20_2(ctx, rr):
     slf = ("var", "self", b.params[0]["id"])
     asg = [n for n in walk(b.body) if n.get("k") == "Assign" and n["l"].get("k") == "Field" and n["l"]["name"] == "iter"]
     rr.instances += 1
-    ok = len(asg) == 1 and show(F, asg[0]["r"]) == "self.into_iter.clone().into_iter()"
+    def _pristine(e):
+        # (a clone of) the field `into_iter` of self, turned into an iterator: only transparent calls around it
+        calls = [x for x in walk(e) if x.get("k") in ("MethodCall", "Call")]
+        names = sorted((x.get("name") or (cname(F, x) or "").split("::")[-1]) for x in calls)
+        flds = [x for x in walk(e) if x.get("k") == "Field"]
+        return names == ["clone", "into_iter"] and len(flds) == 1 and flds[0]["name"] == "into_iter" and flds[0]["e"].get("k") == "Path" and flds[0]["e"].get("name") == "self"
+    ok = len(asg) == 1 and _pristine(asg[0]["r"])
     rr.check(ok, "FromIntoIterator::rewind:from-pristine-clone", "FromIntoIterator::rewind must re-create `iter` from a clone of the untouched `into_iter`", b.span)
     fb = F.one(r"^<utils::lenders::FromIntoIterator<I> as std::convert::From<I>>::from$")
     from r_ef import struct_literal_fields
     sl = struct_literal_fields(F, fb)
     rr.instances += 1
-    rr.check(len(sl) == 1 and tshow(sl[0].get("into_iter", ("unk", "?"))) in ("into_iter",) and sl[0].get("into_iter") != sl[0].get("iter"), "FromIntoIterator::from:keeps-pristine", "From<I> must keep an unconsumed clone in `into_iter`", fb.span)
+    # the field `into_iter` holds (a transparent clone of) the parameter itself; `iter` is something else
+    par = fb.params[0] if fb.params and fb.params[0].get("k") == "PBind" else None
+    kept = sl[0].get("into_iter", ("unk", "?")) if len(sl) == 1 else ("unk", "?")
+    rr.check(par is not None and kept[0] == "var" and kept[-1] == par["id"] and sl[0].get("into_iter") != sl[0].get("iter"), "FromIntoIterator::from:keeps-pristine", "From<I> must keep an unconsumed clone in `into_iter`", fb.span)
     # shared `next`: Ok(0) -> None, Err -> Some(Err), strips one \n then one \r, clears the buffer first
     nb = F.one(r"^utils::lenders::next$")
     s = show(F, nb.body)
